@@ -55,7 +55,7 @@ func runEvmAcct(j Job) *Result {
 		if !w.Start() {
 			continue
 		}
-		e := &evmRun{w: w, r: r, s: st, hist: hist, blockMax: cfg.BlockMaxGas}
+		e := &evmRun{w: w, r: r, s: st, hist: hist, blockMax: cfg.BlockMaxGas, res: res}
 		e.setup()
 		n := 90 + r.Intn(70)
 		if j.Tier == "thorough" {
@@ -91,6 +91,7 @@ type evmRun struct {
 	hist     string
 	blockMax int64
 	txs      int
+	res      *Result
 
 	senders   []*sim.Account
 	eoas      []common.Address
@@ -314,6 +315,20 @@ func (e *evmRun) one() {
 		args.Value = big.NewInt(int64(1 + r.Intn(1_000_000)))
 	default:
 		args.Value = big.NewInt(0)
+	}
+	// "send max": a plain transfer that leaves the sender with exactly nothing (gas limit = gas used, value =
+	// balance - gas limit x price, and for a dynamic-fee transaction a tip that makes the cap the effective price)
+	if tg.name == "eoa" && *tg.to != sender.Eth && r.Intn(8) == 0 {
+		args.GasLimit = 21_000
+		fee := new(big.Int).Mul(feeCap, big.NewInt(21_000))
+		if balS.Cmp(fee) > 0 {
+			args.Value = new(big.Int).Sub(balS, fee)
+			if args.Type == 2 {
+				tip = new(big.Int).Set(feeCap)
+				args.GasTipCap = tip
+			}
+			e.res.Counters["send-max-transfers-built"]++
+		}
 	}
 	// nonce
 	nonce := curNonce
